@@ -656,7 +656,24 @@ Definition prints_like_int (f : fl) : bool :=
   | _ => false
   end.
 
-Definition float_in_domain (f : fl) : bool := fl_canonical f && negb (prints_like_int f).
+Definition fl_abs (f : fl) : fl :=
+  match f with
+  | FNaN => FNaN
+  | FInf _ => FInf false
+  | FFin _ m e => FFin false m e
+  end.
+
+(* the decoded form of a float64, and of its magnitude (what the literal without the sign denotes) *)
+Definition fl_wf (f : fl) : bool := fl_canonical f && fl_canonical (fl_abs f).
+
+(* the text of the magnitude is one of the plain decimal forms (it always is: decidable guard, not a theorem) *)
+Definition text_plain (f : fl) : bool :=
+  match f with
+  | FFin _ m e => plain_decimal (fmt_float_abs m e)
+  | _ => true
+  end.
+
+Definition float_in_domain (f : fl) : bool := fl_wf f && text_plain f && negb (prints_like_int f).
 
 Fixpoint in_domain (v : value) {struct v} : bool :=
   match v with
@@ -681,7 +698,7 @@ Fixpoint in_domain (v : value) {struct v} : bool :=
 Fixpoint all_data (v : value) {struct v} : bool :=
   match v with
   | VInt z => in_int64 z
-  | VFloat f => fl_canonical f
+  | VFloat f => fl_wf f && text_plain f
   | VBool _ | VNil => true
   | VStr s => quote_in_domain s && forallb (fun c => c <? 256) s
   | VArr l => forallb all_data l
